@@ -298,7 +298,7 @@ def run(ctx):
             for api, (_, transposable) in APIS.items():
                 if transposable:
                     jobs.append((k, api, ['transpose', 0, 0, 0, 0], ctx.seed + 10 + extra)); k += 1
-    cases = core.pmap(run_case, jobs, chunksize=2)
+    cases = core.pmap(run_case, jobs, chunksize=2, on_raise='drop')
     ver = core.validate_batch(ctx, 'Covariance', cases, 'Trace:Covariance')
     for c in cases:
         v = ver[c['id']]
